@@ -5,6 +5,7 @@ import (
 	"go/token"
 	"go/types"
 	"sort"
+	"strings"
 
 	"golang.org/x/tools/go/ssa"
 )
@@ -88,10 +89,11 @@ func casCallbackContext(c *Ctx) (lits map[*ssa.Function]bool, ctxFns map[*ssa.Fu
 }
 
 func checkC05(c *Ctx, r *Report) {
-	r.Explain = "Decides structural necessary conditions of 'acknowledged writes are never lost / one accepted child per parent': (R1) every conflict decision (IsIllegalConflict, revTreeConflictCheck, Document.IsInConflict, the leaf test of Put) is evaluated inside the compare-and-swap callback on the document value that callback was handed (so it is re-evaluated on every CAS retry against the freshly read document), and Put accepts a client-supplied parent only on the edge where that parent is a leaf; (R2) document sync metadata is committed only through the CAS loop of updateAndReturnDoc / ResyncDocument or through writes that carry a CAS value read earlier (never the constant 0); (R3) the sequence reserved for a write survives CAS retries in variables declared outside the callback, a sequence kept from an earlier attempt is reused only when it is still greater than the document's stored sequence, otherwise a new one is allocated (above the stored one). Not decided: that exactly one concurrent writer wins under every schedule, and that the feed ends up announcing the final revision."
+	r.Explain = "Decides structural necessary conditions of 'acknowledged writes are never lost / one accepted child per parent': (R1) every conflict decision (IsIllegalConflict, revTreeConflictCheck, Document.IsInConflict, the leaf test of Put) is evaluated inside the compare-and-swap callback on the document value that callback was handed (so it is re-evaluated on every CAS retry against the freshly read document), and Put accepts a client-supplied parent only on the edge where that parent is a leaf; (R2) document sync metadata is committed only through the CAS loop of updateAndReturnDoc / ResyncDocument or through writes that carry a CAS value read earlier (never the constant 0); (R3) the sequence reserved for a write survives CAS retries in variables declared outside the callback, a sequence kept from an earlier attempt is reused only when it is still greater than the document's stored sequence, otherwise a new one is allocated (above the stored one). (R4) the post-commit CAS re-stamp is issued only against the CAS the writer's own commit returned (never a CAS read afterwards), so it cannot overwrite a revision committed in between. Not decided: that exactly one concurrent writer wins under every schedule, and that the feed ends up announcing the final revision."
 	c05R1(c, r)
 	c05R2(c, r)
 	c05R3(c, r)
+	c05R4(c, r)
 }
 
 func c05R1(c *Ctx, r *Report) {
@@ -341,4 +343,52 @@ func c05R3(c *Ctx, r *Report) {
 		r.Check("C05-R3", "fn=(*db.DatabaseCollectionWithUser).updateAndReturnDoc retry-state outlives-callback", c.Pos(top.Pos()), found, "docSequence and unusedSequences are variables of the enclosing function", "the reserved sequence is local to one CAS attempt: each retry would allocate afresh and leak the previous number")
 	}
 	_ = sort.Strings
+}
+
+// C05-R4: the post-commit re-stamp of a document's CAS writes the writer's in-memory metadata; it may only be issued against the CAS
+// the writer's own commit returned. If it were issued against a CAS obtained by a later read, a revision another client committed in
+// between would be overwritten by the first writer's metadata (an acknowledged write lost).
+func c05R4(c *Ctx, r *Report) {
+	r.Rule("C05-R4", "E3 def-use (value-only-from)", "restampVersionCAS is issued only with the CAS returned by the writer's own commit: its cas argument derives only from parameters, and correctVersionAheadOfCAS receives the CAS result of the commit write of the same function", 2)
+	for _, fn := range c.ScopeFuncs() {
+		n := 0
+		for _, call := range c.Calls(fn, false, nameIs("(*db.DatabaseCollectionWithUser).restampVersionCAS")) {
+			n++
+			a := callArgs(call)
+			cas := a[len(a)-1]
+			ok := valueOnlyFrom(cas, func(v ssa.Value) (bool, bool) {
+				switch x := v.(type) {
+				case *ssa.Parameter:
+					return true, true
+				case *ssa.Call, *ssa.Extract:
+					_ = x
+					return true, false // any call result (a fresh read of the document's CAS, …) is not the commit's CAS
+				}
+				return false, false
+			})
+			r.Check("C05-R4", fmt.Sprintf("fn=%s restampVersionCAS #%d cas=from-parameter-only", c.FuncName(fn), n), c.Pos(call.Pos()), ok, "the re-stamp is conditional on the CAS handed in by the committing writer", "the post-commit CAS re-stamp is issued against a CAS obtained after the commit (a fresh read): it writes the first writer's in-memory metadata over whatever another client committed in between — that client's acknowledged revision disappears from the history")
+		}
+		n = 0
+		for _, call := range c.Calls(fn, false, nameIs("(*db.DatabaseCollectionWithUser).correctVersionAheadOfCAS")) {
+			n++
+			a := callArgs(call)
+			cas := a[len(a)-1]
+			ok := DependsOn(cas, c.ResultOf(0, nameHasSuffix(".WriteUpdateWithXattrs"))) && valueOnlyFrom(cas, func(v ssa.Value) (bool, bool) {
+				if ex, isEx := v.(*ssa.Extract); isEx {
+					if cc, isCall := ex.Tuple.(*ssa.Call); isCall {
+						return true, strings.HasSuffix(c.CalleeName(cc), ".WriteUpdateWithXattrs") && ex.Index == 0
+					}
+					return true, false
+				}
+				if _, isCall := v.(*ssa.Call); isCall {
+					return true, false
+				}
+				if k, isK := constInt(v); isK {
+					return true, k == 0
+				}
+				return false, false
+			})
+			r.Check("C05-R4", fmt.Sprintf("fn=%s correctVersionAheadOfCAS #%d cas=commit-result", c.FuncName(fn), n), c.Pos(call.Pos()), ok, "receives the CAS returned by WriteUpdateWithXattrs", "the CAS correction is not handed the CAS of the commit it corrects")
+		}
+	}
 }
